@@ -948,7 +948,17 @@ func traceAll(out string, n, blocks int, scen string, split int) {
 	}
 	rep := hx.NewReport("chain-all", "trace-all")
 	k := 0
-	next := func() *hx.TraceWriter { k++; return tws[(k-1)%split] }
+	// the next chain goes to the file with the fewest events so far (balanced parallel validation)
+	next := func() *hx.TraceWriter {
+		k++
+		best := tws[0]
+		for _, tw := range tws {
+			if tw.N < best.N {
+				best = tw
+			}
+		}
+		return best
+	}
 	// long random chains first, so that they land in different files
 	for i := 0; i < n; i++ {
 		randomChain(next(), rep, i, blocks)
